@@ -1,6 +1,652 @@
-//! C14 (stub)
-use crate::case::{Case, Report};
-use crate::plan::Ctx;
-pub fn sections(_ctx: &Ctx) -> Vec<(&'static str, u64)> { vec![] }
-pub fn cases(_ctx: &Ctx, _s: &str, _i: u64) -> Vec<Case> { vec![] }
-pub fn judge(_case: &Case, _rep: &mut Report) {}
+//! C14 - diagnostics track source positions across include histories.
+//!
+//! Every expectation is derived inside `judge` from the literal case: the reference model (for
+//! generated graphs) or the fault-free pre-run plus the text of the including file (for the
+//! repository's shader trees) say where the planted failure is.
+
+use crate::case::{Case, Finding, Report};
+use crate::exec::{Api, ExecSpec, OutcomeKind, Target, TaskResult, run_exec};
+use crate::json::Json;
+use crate::model::{self, Atom, FailKind, Verdict};
+use crate::plan::{Ctx, STACK_MAIN, STACK_SMALL, Tier, key, w1_scenarios};
+use crate::prng::{Rng, fnv64};
+use crate::simfs::{Fault, FaultKind, Sel};
+use crate::w3::{self, Form, Mode};
+
+const BATCH: u64 = 25;
+const SHIFTS: [u64; 4] = [1, 2, 7, 50];
+
+pub fn sections(ctx: &Ctx) -> Vec<(&'static str, u64)> {
+    let (locs, fail, typ) = match ctx.tier {
+        Tier::Quick => (80, 160, 80),
+        Tier::Thorough => (4_000, 8_000, 4_000),
+    };
+    let w1 = w1_scenarios(&ctx.corpus, false).len() as u64;
+    vec![
+        ("locs", locs * ctx.scale),
+        ("fail", fail * ctx.scale),
+        ("type", typ * ctx.scale),
+        ("corpus-load", w1),
+        ("corpus-crlf", w1),
+    ]
+}
+
+fn graph_case(kind: &str, label: String, g: &w3::Graph, faults: Vec<Fault>, api: Api, rng: &mut Rng) -> Case {
+    let mut task = match api {
+        Api::Preprocess => w3::preprocess_task(g),
+        Api::Compile => w3::compile_task(g, &mut rng.sub("target")),
+    };
+    task.faults = faults;
+    let stack = if rng.chance(1, 2) { STACK_SMALL } else { STACK_MAIN };
+    Case {
+        check: "C14".into(),
+        kind: kind.into(),
+        label,
+        fss: vec![g.fs.clone()],
+        execs: vec![ExecSpec::single(key(rng), stack, task)],
+        params: Json::obj().with("variant_seed", Json::u(rng.next_u64() >> 12)),
+    }
+}
+
+pub fn cases(ctx: &Ctx, section: &str, unit: u64) -> Vec<Case> {
+    let mut out = Vec::new();
+    match section {
+        "locs" | "fail" | "type" => {
+            for b in 0..BATCH {
+                let i = unit * BATCH + b;
+                let mut rng = ctx.rng().sub_n(section, i);
+                let mode = if rng.chance(1, 3) { Mode::Plain } else { Mode::Hostile };
+                match section {
+                    "locs" => {
+                        let g = w3::generate(&mut rng.sub("graph"), mode, Form::Pre);
+                        let faults = if rng.chance(1, 4) {
+                            vec![Fault::new(FaultKind::Crlf, Sel::All)]
+                        } else {
+                            vec![]
+                        };
+                        out.push(graph_case(
+                            "diag-locs",
+                            format!("W3:locs#{i}"),
+                            &g,
+                            faults,
+                            Api::Preprocess,
+                            &mut rng,
+                        ));
+                    }
+                    "fail" => {
+                        let form = if rng.chance(1, 3) { Form::Compile } else { Form::Pre };
+                        let g = w3::generate(&mut rng.sub("graph"), mode, form);
+                        let base = model::run(&g.fs, &[], &g.entry, &g.defines);
+                        // one planted failure: unreadable include string / file, or a NUL line
+                        let mut fr = rng.sub("fault");
+                        let mut faults = Vec::new();
+                        let strings: Vec<&str> = base.walk.iter().map(|s| s.string.as_str()).collect();
+                        match fr.below(4) {
+                            0 | 1 if !strings.is_empty() => {
+                                let kind = if fr.chance(1, 2) {
+                                    FaultKind::NotFound
+                                } else {
+                                    FaultKind::NotText
+                                };
+                                faults.push(Fault::new(
+                                    kind,
+                                    Sel::IncludeString(fr.pick(&strings).to_string()),
+                                ));
+                            }
+                            2 if base.pasted.len() > 1 => {
+                                let f = fr.pick(&base.pasted[1..]).clone();
+                                faults.push(Fault::new(FaultKind::NotFound, Sel::File(f)));
+                            }
+                            _ => {
+                                if !base.pasted.is_empty() {
+                                    let f = fr.pick(&base.pasted).clone();
+                                    let text = &g.fs.files[&f];
+                                    let starts: Vec<usize> = std::iter::once(0)
+                                        .chain(text.match_indices('\n').map(|(i, _)| i + 1))
+                                        .filter(|o| *o < text.len())
+                                        .collect();
+                                    if !starts.is_empty() {
+                                        let o = *fr.pick(&starts);
+                                        faults.push(
+                                            Fault::new(FaultKind::Nul, Sel::File(f)).ab(o as u64, 0),
+                                        );
+                                    }
+                                }
+                            }
+                        }
+                        let api = if form == Form::Compile { Api::Compile } else { Api::Preprocess };
+                        out.push(graph_case(
+                            "diag-fail",
+                            format!("W3:fail#{i}"),
+                            &g,
+                            faults,
+                            api,
+                            &mut rng,
+                        ));
+                    }
+                    _ => {
+                        // a type error planted at a marker that the model says is emitted once
+                        let mut g = w3::generate(&mut rng.sub("graph"), mode, Form::Compile);
+                        let base = model::run(&g.fs, &[], &g.entry, &g.defines);
+                        if let Verdict::Ok(toks) = &base.verdict
+                            && model::compile_form_verdict(toks) == Some(Ok(()))
+                        {
+                            let names: Vec<&model::Tok> = toks
+                                .iter()
+                                .filter(|t| matches!(&t.atom, Atom::Id(n) if n.starts_with("m_")) && t.col > 1)
+                                .filter(|t| g.fs.files.contains_key(&t.file))
+                                .collect();
+                            // only markers written directly on a declaration line (col of the name)
+                            let decls: Vec<&&model::Tok> = names
+                                .iter()
+                                .filter(|t| {
+                                    g.fs.files[&t.file]
+                                        .lines()
+                                        .nth(t.line as usize - 1)
+                                        .is_some_and(|l| {
+                                            l.trim_start().starts_with("static const int")
+                                                && l.contains(&format!(" {} =", atom_name(t)))
+                                        })
+                                })
+                                .collect();
+                            if !decls.is_empty() {
+                                let t = **rng.sub("plant").pick(&decls);
+                                let text = g.fs.files.get_mut(&t.file).unwrap();
+                                let mut lines: Vec<String> =
+                                    text.split('\n').map(|s| s.to_string()).collect();
+                                let li = t.line as usize - 1;
+                                let indent: String = lines[li]
+                                    .chars()
+                                    .take_while(|c| c.is_whitespace())
+                                    .collect();
+                                lines[li] = format!(
+                                    "{indent}static const int {} = undeclared_zz ;",
+                                    atom_name(t)
+                                );
+                                *text = lines.join("\n");
+                            }
+                        }
+                        out.push(graph_case(
+                            "diag-type",
+                            format!("W3:type#{i}"),
+                            &g,
+                            vec![],
+                            Api::Compile,
+                            &mut rng,
+                        ));
+                    }
+                }
+            }
+        }
+        "corpus-load" => {
+            let scs = w1_scenarios(&ctx.corpus, false);
+            let sc = &scs[unit as usize];
+            let e = &ctx.corpus.entries[sc.entry];
+            let fs = ctx.corpus.trees[e.tree].clone();
+            let mut rng = ctx.rng().sub_n(section, unit);
+            // fault-free pre-run to learn how many requests there are
+            let probe = ExecSpec::single((1, 2), STACK_MAIN, sc.task.clone());
+            let n = run_exec(&probe, std::slice::from_ref(&fs)).results[0][0].events.len() as u64;
+            let ks: Vec<u64> = match ctx.tier {
+                Tier::Thorough => (0..n).collect(),
+                Tier::Quick => {
+                    // the seed picks which requests fail; k = 0 (the entry file) only sometimes
+                    let mut v = Vec::new();
+                    for _ in 0..2 {
+                        if n > 0 {
+                            v.push(rng.below(n));
+                        }
+                    }
+                    v.sort();
+                    v.dedup();
+                    v
+                }
+            };
+            for k in ks {
+                let mut r = rng.sub_n("k", k);
+                out.push(Case {
+                    check: "C14".into(),
+                    kind: "diag-corpus-load".into(),
+                    label: format!("{}+load#{k}-fails", sc.label),
+                    fss: vec![fs.clone()],
+                    execs: vec![ExecSpec::single(key(&mut r), STACK_MAIN, sc.task.clone())],
+                    params: Json::obj()
+                        .with("k", Json::u(k))
+                        .with("not_text", Json::Bool(r.chance(1, 2)))
+                        .with("variant_seed", Json::u(r.next_u64() >> 12)),
+                });
+            }
+        }
+        "corpus-crlf" => {
+            let scs = w1_scenarios(&ctx.corpus, false);
+            let sc = &scs[unit as usize];
+            let e = &ctx.corpus.entries[sc.entry];
+            let mut rng = ctx.rng().sub_n(section, unit);
+            out.push(Case {
+                check: "C14".into(),
+                kind: "diag-crlf".into(),
+                label: format!("{}+crlf", sc.label),
+                fss: vec![ctx.corpus.trees[e.tree].clone()],
+                execs: vec![ExecSpec::single(key(&mut rng), STACK_MAIN, sc.task.clone())],
+                params: Json::obj(),
+            });
+        }
+        _ => {}
+    }
+    out
+}
+
+fn atom_name(t: &model::Tok) -> &str {
+    match &t.atom {
+        Atom::Id(s) => s,
+        _ => "",
+    }
+}
+
+fn finding(class: &str, fingerprint: &str, detail: String) -> Finding {
+    Finding {
+        property: "C14".into(),
+        class: class.into(),
+        fingerprint: fingerprint.into(),
+        detail,
+    }
+}
+
+#[derive(Debug, Clone, PartialEq)]
+struct Diag {
+    file: String,
+    line: u32,
+    col: u32,
+    /// the first line after "file:line:col" and all following lines (message, source line, caret)
+    rest: String,
+}
+
+/// Parse the text rssl rendered for an error. None if it carries no position.
+fn parse_diag(result_text: &str) -> Option<Diag> {
+    let body = result_text.split_once('\n')?.1;
+    let first = body.lines().next()?;
+    let pos = first.find(": error: ")?;
+    let prefix = &first[..pos];
+    let mut it = prefix.rsplitn(3, ':');
+    let col: u32 = it.next()?.parse().ok()?;
+    let line: u32 = it.next()?.parse().ok()?;
+    let file = it.next()?.to_string();
+    Some(Diag {
+        file,
+        line,
+        col,
+        rest: body[pos..].to_string(),
+    })
+}
+
+fn run_single(case: &Case, ex: &ExecSpec, rep: &mut Report) -> TaskResult {
+    let res = run_exec(ex, &case.fss);
+    rep.history_digests.insert(res.history_digest);
+    let r = res.results.into_iter().next().unwrap().into_iter().next().unwrap();
+    rep.absorb_task(&r);
+    r
+}
+
+fn trivia_lines(rng: &mut Rng, newlines: u64) -> String {
+    // whole lines of trivia containing exactly `newlines` line feeds
+    let mut out = String::new();
+    let mut left = newlines;
+    while left > 0 {
+        let choice = rng.below(6);
+        if choice == 5 && left >= 2 {
+            out.push_str("/* a comment that\n   spans two lines */\n");
+            left -= 2;
+        } else {
+            out.push_str(
+                ["\n", "// inserted by the simulator\n", "/* inserted */\n", "   \t\n", "\\\n"]
+                    [(choice % 5) as usize],
+            );
+            left -= 1;
+        }
+    }
+    out
+}
+
+/// The k-line shift and bystander-growth variants of a scenario whose diagnostic is `base`
+/// in file `file` at line `line`. `earlier` = real names of files loaded before the failure.
+#[allow(clippy::too_many_arguments)]
+fn metamorphic(
+    case: &Case,
+    base_exec: &ExecSpec,
+    base: &Diag,
+    base_text: &str,
+    file_canonical: &str,
+    insert_at_most: u32,
+    earlier: &[String],
+    rep: &mut Report,
+) {
+    let seed = case.params.gu("variant_seed");
+    let mut rng = Rng::new(seed).sub("variants");
+    for k in SHIFTS {
+        let mut ex = base_exec.clone();
+        let at = rng.below(insert_at_most as u64 + 1);
+        let text = trivia_lines(&mut rng, k);
+        ex.threads[0].tasks[0].faults.push(
+            Fault::new(FaultKind::InsertLines, Sel::File(file_canonical.to_string()))
+                .ab(at, 0)
+                .text(&text),
+        );
+        ex.threads[0].key = (rng.next_u64(), rng.next_u64());
+        let r = run_single(case, &ex, rep);
+        rep.count("shift_variants", 1);
+        match parse_diag(&r.text) {
+            Some(d)
+                if d.file == base.file
+                    && d.col == base.col
+                    && d.rest == base.rest
+                    && d.line == base.line + k as u32 => {}
+            other => {
+                rep.findings.push(finding(
+                    "line-shift",
+                    &format!("k={k}"),
+                    format!(
+                        "{}: {k} trivia lines inserted before line {} of {file_canonical} (at line index {at}): expected {}:{}:{} with the same message, got {:?} (base {:?})",
+                        case.label,
+                        base.line,
+                        base.file,
+                        base.line + k as u32,
+                        base.col,
+                        other.map(|d| format!("{}:{}:{} {}", d.file, d.line, d.col, d.rest.lines().next().unwrap_or("").to_string()))
+                            .unwrap_or_else(|| r.text.lines().take(2).collect::<Vec<_>>().join(" | ")),
+                        base_text.lines().nth(1).unwrap_or("")
+                    ),
+                ));
+                return;
+            }
+        }
+    }
+    // bystander growth: files loaded earlier get longer; the diagnostic must not move
+    let others: Vec<&String> = earlier.iter().filter(|f| f.as_str() != file_canonical).collect();
+    if !others.is_empty() {
+        let mut ex = base_exec.clone();
+        for f in &others {
+            let grow = format!(
+                "\n// grown by the simulator {}\n/* more */\n",
+                "x".repeat(rng.range(0, 40) as usize)
+            );
+            ex.threads[0].tasks[0]
+                .faults
+                .push(Fault::new(FaultKind::Append, Sel::File((*f).clone())).text(&grow));
+        }
+        let r = run_single(case, &ex, rep);
+        rep.count("bystander_variants", 1);
+        if r.text != base_text {
+            rep.findings.push(finding(
+                "bystander-growth",
+                "diagnostic-moved",
+                format!(
+                    "{}: growing {} file(s) loaded before the failure changed the diagnostic: {:?} vs {:?}",
+                    case.label,
+                    others.len(),
+                    base_text.lines().nth(1).unwrap_or(""),
+                    r.text.lines().nth(1).unwrap_or("")
+                ),
+            ));
+        }
+    }
+}
+
+pub fn judge(case: &Case, rep: &mut Report) {
+    let ex = &case.execs[0];
+    let task = &ex.threads[0].tasks[0];
+    let digest = fnv64(
+        Json::Arr(vec![
+            case.fss[task.fs].to_json(),
+            task.to_json(),
+            case.params.clone(),
+        ])
+        .dump()
+        .as_bytes(),
+    );
+    rep.scenario_digests.insert(digest);
+    match case.kind.as_str() {
+        "diag-locs" => {
+            let r = run_single(case, ex, rep);
+            if r.kind == OutcomeKind::Panic {
+                rep.findings.push(finding("panic", &r.panic_site, format!("{}: {}", case.label, r.text)));
+                return;
+            }
+            let m = model::run(&case.fss[task.fs], &task.faults, &task.entry, &task.defines);
+            let Verdict::Ok(toks) = &m.verdict else {
+                rep.count("locs_not_judged_model_not_ok", 1);
+                return;
+            };
+            if r.kind != OutcomeKind::Ok {
+                rep.count("locs_not_judged_impl_err", 1);
+                return;
+            }
+            let mut expect = String::new();
+            for t in toks {
+                expect.push_str(&t.loc());
+                expect.push('\n');
+            }
+            rep.count("token_locations_compared", toks.len() as u64);
+            if m.pasted.len() >= 2 {
+                rep.nontrivial.insert(digest);
+            }
+            if expect != r.aux {
+                // attribute: show the first differing token
+                let mut detail = String::new();
+                for (i, (a, b)) in expect.lines().zip(r.aux.lines()).enumerate() {
+                    if a != b {
+                        detail = format!(
+                            "token #{i} {}: written at {a}, rssl says {b}",
+                            toks.get(i).map(|t| t.render()).unwrap_or_default()
+                        );
+                        break;
+                    }
+                }
+                if detail.is_empty() {
+                    detail = format!(
+                        "different number of tokens ({} vs {})",
+                        expect.lines().count(),
+                        r.aux.lines().count()
+                    );
+                }
+                rep.findings.push(finding(
+                    "token-location",
+                    "location-differs",
+                    format!("{}: {detail}", case.label),
+                ));
+            }
+        }
+        "diag-fail" | "diag-type" => {
+            let r = run_single(case, ex, rep);
+            if r.kind == OutcomeKind::Panic {
+                rep.findings.push(finding("panic", &r.panic_site, format!("{}: {}", case.label, r.text)));
+                return;
+            }
+            let m = model::run(&case.fss[task.fs], &task.faults, &task.entry, &task.defines);
+            // Where does the model say the first failure is?
+            let (file, line, what): (String, u32, String) = match &m.verdict {
+                Verdict::Fail(f) => match (&f.kind, &f.at) {
+                    // (a failing #if condition is reported where its first token was written, which may
+                    // be a macro body in another file: not a position the simulator planted)
+                    (FailKind::Load(_) | FailKind::Lex, Some((file, line))) => {
+                        (file.clone(), *line, format!("{:?}", f.kind))
+                    }
+                    _ => {
+                        rep.count("fail_not_judged_no_position", 1);
+                        return;
+                    }
+                },
+                Verdict::Ok(toks) if task.api == Api::Compile => {
+                    match model::compile_form_verdict(toks) {
+                        Some(Err(i)) => {
+                            let t = &toks[i];
+                            // only failures whose offending token was written on a line of a file
+                            // (not inside a macro body or on the command line) have a position
+                            // the statement speaks about unambiguously
+                            let direct = case.fss[task.fs].files.get(&t.file).is_some_and(|text| {
+                                text.lines().nth(t.line as usize - 1).is_some_and(|l| {
+                                    !l.trim_start().starts_with('#')
+                                })
+                            });
+                            if !direct {
+                                rep.count("type_not_judged_token_from_macro", 1);
+                                return;
+                            }
+                            if case.kind == "diag-type" && atom_name(t) != "undeclared_zz" {
+                                rep.count("type_not_judged_other_error_first", 1);
+                                return;
+                            }
+                            (t.file.clone(), t.line, format!("{:?}", t.atom))
+                        }
+                        _ => {
+                            rep.count("fail_not_judged_model_ok", 1);
+                            return;
+                        }
+                    }
+                }
+                _ => {
+                    rep.count("fail_not_judged_model_ok_or_unmodelled", 1);
+                    return;
+                }
+            };
+            if r.kind != OutcomeKind::Err {
+                // C12's business; here there is no diagnostic to judge
+                rep.count("fail_not_judged_impl_ok", 1);
+                return;
+            }
+            rep.count(&format!("planted_{}", what.split(['(', '"']).next().unwrap_or("").to_lowercase()), 1);
+            let Some(d) = parse_diag(&r.text) else {
+                rep.findings.push(finding(
+                    "diagnostic-position",
+                    "no-position",
+                    format!(
+                        "{}: failure at {file}:{line} ({what}) is reported without a position: {:?}",
+                        case.label,
+                        r.text.lines().nth(1).unwrap_or("")
+                    ),
+                ));
+                return;
+            };
+            if d.file != file || d.line != line {
+                rep.findings.push(finding(
+                    "diagnostic-position",
+                    "wrong-file-or-line",
+                    format!(
+                        "{}: failure planted at {file}:{line} ({what}) is reported at {}:{}:{} {:?}",
+                        case.label,
+                        d.file,
+                        d.line,
+                        d.col,
+                        d.rest.lines().next().unwrap_or("")
+                    ),
+                ));
+                return;
+            }
+            let entry_canonical = case.fss[task.fs].resolve(&task.entry, "").unwrap_or_default();
+            if file != entry_canonical || m.pasted.len() >= 2 {
+                rep.nontrivial.insert(digest);
+            }
+            let earlier: Vec<String> = m.pasted.clone();
+            metamorphic(case, ex, &d, &r.text, &file, line - 1, &earlier, rep);
+        }
+        "diag-corpus-load" => {
+            let k = case.params.gu("k");
+            let base = run_single(case, ex, rep);
+            if base.kind == OutcomeKind::Panic || (k as usize) >= base.events.len() {
+                rep.count("corpus_load_not_judged", 1);
+                return;
+            }
+            let ev = base.events[k as usize].clone();
+            let mut fex = ex.clone();
+            let kind = if case.params.gb("not_text") {
+                FaultKind::NotText
+            } else {
+                FaultKind::NotFound
+            };
+            fex.threads[0].tasks[0]
+                .faults
+                .push(Fault::new(kind, Sel::LoadIndex(k)));
+            let r = run_single(case, &fex, rep);
+            if r.kind == OutcomeKind::Panic {
+                rep.findings.push(finding("panic", &r.panic_site, format!("{}: {}", case.label, r.text)));
+                return;
+            }
+            if r.kind != OutcomeKind::Err || !r.text.contains(&ev.file_name) {
+                rep.findings.push(finding(
+                    "diagnostic-position",
+                    "load-failure-not-reported",
+                    format!(
+                        "{}: request #{k} for {:?} failed but the result is {:?}",
+                        case.label,
+                        ev.file_name,
+                        r.text.lines().take(2).collect::<Vec<_>>().join(" | ")
+                    ),
+                ));
+                return;
+            }
+            if k == 0 {
+                rep.count("entry_file_failures", 1);
+                return;
+            }
+            let parent = ev.parent_name.clone();
+            let Some(ptext) = case.fss[task.fs].files.get(&parent) else {
+                rep.count("corpus_load_not_judged", 1);
+                return;
+            };
+            let candidates: Vec<u32> = ptext
+                .lines()
+                .enumerate()
+                .filter(|(_, l)| l.contains("include") && l.contains(&ev.file_name))
+                .map(|(i, _)| i as u32 + 1)
+                .collect();
+            let Some(d) = parse_diag(&r.text) else {
+                rep.findings.push(finding(
+                    "diagnostic-position",
+                    "no-position",
+                    format!("{}: failed include of {:?} in {parent} reported without position", case.label, ev.file_name),
+                ));
+                return;
+            };
+            if d.file != parent || !candidates.contains(&d.line) {
+                rep.findings.push(finding(
+                    "diagnostic-position",
+                    "wrong-file-or-line",
+                    format!(
+                        "{}: failed include of {:?} written in {parent} at line(s) {candidates:?} is reported at {}:{}:{}",
+                        case.label, ev.file_name, d.file, d.line, d.col
+                    ),
+                ));
+                return;
+            }
+            rep.nontrivial.insert(digest);
+            let earlier: Vec<String> = base.events[..k as usize]
+                .iter()
+                .map(|e| e.real_name.clone())
+                .collect();
+            // insert at the very top of the including file: above every directive of it
+            metamorphic(case, &fex, &d, &r.text, &parent, 0, &earlier, rep);
+        }
+        "diag-crlf" => {
+            let a = run_single(case, ex, rep);
+            let mut cx = ex.clone();
+            cx.threads[0].tasks[0]
+                .faults
+                .push(Fault::new(FaultKind::Crlf, Sel::All));
+            let b = run_single(case, &cx, rep);
+            rep.nontrivial.insert(digest);
+            rep.count("crlf_trees_compared", 1);
+            if a.kind == OutcomeKind::Ok && a.text != b.text || a.kind != b.kind {
+                rep.findings.push(finding(
+                    "trivia",
+                    "crlf-changes-output",
+                    format!(
+                        "{}: the same tree with CRLF line ends gives a different result at {}",
+                        case.label,
+                        crate::case::first_difference(&a.text, &b.text)
+                    ),
+                ));
+            }
+        }
+        _ => {}
+    }
+    let _ = Target::Dx;
+}
